@@ -15,6 +15,8 @@ from checks import parsegen, parse_common, pipeline_gen
 
 THEOREMS = ["C09_parse_total", "C09_scan_boundaries", "C09_parse_old_refuted", "C09_parse_fixed_witness", "C09_range_count_total", "C09_model_parse_total"]
 PROPS = "theories/Props/C09.v"
+PROPS_B = "theories/Props/C09b.v"
+THEOREMS_B = ["C09_resolve_terminates", "C09_resolve_terminates_own", "C09_resolve_terminates_stack", "C09_project_keys", "C09_final_value_terminates", "C09_walk_fuel_adequate", "C09_walk_stops", "C09_look_one_restart"]
 REGISTRY = {
     "level": "proof",
     "technique": "Coq totality proof of the parser model (no Panic, fuel adequacy) + differential correspondence under catch_unwind",
@@ -53,7 +55,7 @@ def shrink(ctx, s, pred):
 def run(ctx):
     from checks import isolate
     isolate.enter(ctx)
-    ok, problems = core.coq_audit(ctx, PROPS, THEOREMS)
+    ok, problems = core.coq_audit_multi(ctx, [(PROPS, THEOREMS), (PROPS_B, THEOREMS_B)])   # C09b: foreign-key resolution terminates within its fuel
     n_valid, n_mal = (600, 2400) if ctx.quick else (6000, 30000)
     cases = parsegen.gen_cases(ctx.rng, n_valid, n_mal)
     meta, codes, _ = parse_common.evaluate(ctx, "c09", cases, "check_C09")
